@@ -284,7 +284,7 @@ FPlan generate(const std::string &prop, const std::string &tier, uint64_t seed)
     for (int i = 0; i < nops; i++) {
         int c = (int)r.below(100);
         if (c < 62) {
-            int cls = r.chance(1, 5) ? 1 : (r.chance(1, 8) ? 2 : (r.chance(1, 8) ? 3 : 0));
+            int cls = r.chance(1, 5) ? 1 : (r.chance(1, 8) ? 2 : (r.chance(1, 8) ? 3 : (r.chance(1, 7) ? 4 : 0)));
             int n = gen_size(r, p.L, true);
             if (prop == "C08") {
                 static const int big[] = { 1, 100, 8191, 8192, 8193, 20000, 65535, 65536, 65537, 150000 };
@@ -292,7 +292,7 @@ FPlan generate(const std::string &prop, const std::string &tier, uint64_t seed)
                     n = pick(r, big);
                 if (thorough && r.chance(1, 40))
                     n = (int)r.range(1 << 20, 4 << 20);
-                cls = (int)r.below(4);
+                cls = (int)r.below(5);
             }
             if (prop == "C10" && n > 3000)
                 n = (int)r.range(0, 200);
